@@ -1,0 +1,170 @@
+//! Read-only inspector and arithmetic wrappers for the verification harness
+//! (only compiled with `--cfg flurry_verif`).
+
+use super::*;
+use crate::verif::{BinDump, Dump, NodeDump, TableDump, TreeNodeDump};
+
+fn addr<T>(s: Shared<'_, T>) -> usize {
+    // safety: the pointer is only converted to an integer
+    unsafe { s.as_ptr() as usize }
+}
+
+fn dump_node<'g, K, V>(
+    p: Shared<'g, BinEntry<K, V>>,
+    n: &'g Node<K, V>,
+    guard: &'g Guard<'_>,
+) -> NodeDump<'g, K, V> {
+    let v = n.value.load(Ordering::SeqCst, guard);
+    NodeDump {
+        addr: addr(p),
+        hash: n.hash,
+        key: &n.key,
+        value_addr: addr(v),
+        // safety: read under the guard
+        value: unsafe { v.as_ref() }.map(|l| &**l),
+        next: addr(n.next.load(Ordering::SeqCst, guard)),
+        locked: n.lock.is_locked(),
+    }
+}
+
+fn dump_tree_node<'g, K, V>(
+    p: Shared<'g, BinEntry<K, V>>,
+    guard: &'g Guard<'_>,
+) -> Option<TreeNodeDump<'g, K, V>> {
+    // safety: read under the guard
+    let tn = unsafe { p.deref() }.as_tree_node()?;
+    Some(TreeNodeDump {
+        node: dump_node(p, &tn.node, guard),
+        parent: addr(tn.parent.load(Ordering::SeqCst, guard)),
+        left: addr(tn.left.load(Ordering::SeqCst, guard)),
+        right: addr(tn.right.load(Ordering::SeqCst, guard)),
+        prev: addr(tn.prev.load(Ordering::SeqCst, guard)),
+        red: tn.red.load(Ordering::SeqCst),
+    })
+}
+
+fn dump_table<'g, K, V>(
+    t: Shared<'g, Table<K, V>>,
+    guard: &'g Guard<'_>,
+) -> Option<TableDump<'g, K, V>> {
+    if t.is_null() {
+        return None;
+    }
+    // safety: read under the guard
+    let tab = unsafe { t.deref() };
+    // a generous bound on the number of nodes followed in one bin, so that a
+    // corrupted (cyclic) structure still yields a finite dump
+    const LIMIT: usize = 1 << 16;
+    let mut bins = Vec::with_capacity(tab.len());
+    for i in 0..tab.len() {
+        let b = tab.bin(i, guard);
+        if b.is_null() {
+            bins.push(BinDump::Empty);
+            continue;
+        }
+        // safety: read under the guard
+        match **unsafe { b.deref() } {
+            BinEntry::Moved => bins.push(BinDump::Moved),
+            BinEntry::Node(_) => {
+                let mut nodes = Vec::new();
+                let mut p = b;
+                while !p.is_null() && nodes.len() < LIMIT {
+                    // safety: read under the guard
+                    let Some(n) = unsafe { p.deref() }.as_node() else {
+                        break;
+                    };
+                    nodes.push(dump_node(p, n, guard));
+                    p = n.next.load(Ordering::SeqCst, guard);
+                }
+                bins.push(BinDump::List(nodes));
+            }
+            BinEntry::Tree(ref tb) => {
+                let first = tb.first.load(Ordering::SeqCst, guard);
+                let root = tb.root.load(Ordering::SeqCst, guard);
+                let mut list = Vec::new();
+                let mut p = first;
+                while !p.is_null() && list.len() < LIMIT {
+                    let Some(d) = dump_tree_node(p, guard) else {
+                        break;
+                    };
+                    // safety: read under the guard
+                    p = unsafe { p.deref() }
+                        .as_tree_node()
+                        .unwrap()
+                        .node
+                        .next
+                        .load(Ordering::SeqCst, guard);
+                    list.push(d);
+                }
+                let mut tree = Vec::new();
+                let mut stack = vec![root];
+                while let Some(p) = stack.pop() {
+                    if p.is_null() || tree.len() >= LIMIT {
+                        continue;
+                    }
+                    let Some(d) = dump_tree_node(p, guard) else {
+                        continue;
+                    };
+                    // safety: read under the guard
+                    let tn = unsafe { p.deref() }.as_tree_node().unwrap();
+                    stack.push(tn.right.load(Ordering::SeqCst, guard));
+                    stack.push(tn.left.load(Ordering::SeqCst, guard));
+                    tree.push(d);
+                }
+                bins.push(BinDump::Tree {
+                    addr: addr(b),
+                    locked: tb.lock.is_locked(),
+                    lock_state: tb.lock_state.load(Ordering::SeqCst),
+                    waiter_null: tb.waiter.load(Ordering::SeqCst, guard).is_null(),
+                    root: addr(root),
+                    first: addr(first),
+                    list,
+                    tree,
+                });
+            }
+            BinEntry::TreeNode(_) => bins.push(BinDump::Empty),
+        }
+    }
+    Some(TableDump {
+        addr: addr(t),
+        bins,
+        next_table: addr(tab.next_table(guard)),
+    })
+}
+
+impl<K, V, S> HashMap<K, V, S> {
+    /// Read-only structural dump of the map (current table and, during a resize, the next one).
+    pub fn verif_dump<'g>(&'g self, guard: &'g Guard<'_>) -> Dump<'g, K, V> {
+        Dump {
+            table: dump_table(self.table.load(Ordering::SeqCst, guard), guard),
+            next: dump_table(self.next_table.load(Ordering::SeqCst, guard), guard),
+            size_ctl: self.size_ctl.load(Ordering::SeqCst),
+            transfer_index: self.transfer_index.load(Ordering::SeqCst),
+            count: self.count.load(Ordering::SeqCst),
+        }
+    }
+
+    /// `resize_stamp(n)` as the map computes it.
+    pub fn verif_resize_stamp(n: usize) -> isize {
+        Self::resize_stamp(n)
+    }
+
+    /// The constants the resize protocol is built from:
+    /// `(RESIZE_STAMP_SHIFT, MAX_RESIZERS, MAXIMUM_CAPACITY, DEFAULT_CAPACITY, MIN_TRANSFER_STRIDE)`.
+    pub fn verif_constants() -> (usize, isize, usize, usize, isize) {
+        (
+            RESIZE_STAMP_SHIFT,
+            MAX_RESIZERS,
+            MAXIMUM_CAPACITY,
+            DEFAULT_CAPACITY,
+            MIN_TRANSFER_STRIDE,
+        )
+    }
+
+    /// The stride `transfer` uses for a table of length `n` on this machine.
+    pub fn verif_stride(n: usize) -> isize {
+        let ncpu = num_cpus();
+        let stride = if ncpu > 1 { (n >> 3) / ncpu } else { n };
+        std::cmp::max(stride as isize, MIN_TRANSFER_STRIDE)
+    }
+}
